@@ -180,7 +180,7 @@ Section Typed.
     end.
 
   (* ---------------------------------------------------------------- PassthroughSingletonHook
-     no driver use; [None] = nothing decided (to_release stays None) *)
+     no driver use; [None] = nothing pending (the hook then re-releases its last value) *)
   Definition decide_pass (q : list A) : option A * list A :=
     match rev q with
     | [] => (None, q)
@@ -262,7 +262,7 @@ Inductive hook : Type :=
 | HKeyedT (m : list (N * list N)) (tr : option (list (N * N)))
 | HKeyedN (m : list (N * list N)) (tr : option (list (N * N)))
 | HSingle (q : list N) (tr : option (N * bool)) (last : option N)
-| HPass (q : list N) (tr : option N)
+| HPass (q : list N) (tr : option (N * bool)) (last : option N)
 | HKSingle (m : list (N * list N)) (tr : option (list (N * N * bool))) (last : list (N * N)).
 
 Definition all_empty (m : list (N * list N)) : bool := forallb (fun e => is_nil (snd e)) m.
@@ -272,21 +272,21 @@ Definition current_decision (h : hook) : option bool :=
   | HStreamT _ tr | HStreamN _ tr => option_map (fun v => negb (is_nil v)) tr
   | HKeyedT _ tr | HKeyedN _ tr => option_map (fun v => negb (is_nil v)) tr
   | HSingle _ tr _ => option_map snd tr
-  | HPass _ tr => option_map (fun _ => true) tr
+  | HPass _ tr _ => option_map snd tr
   | HKSingle _ tr _ => option_map (existsb (fun e => snd e)) tr
   end.
 
 Definition can_nontrivial (h : hook) : bool :=
   match h with
-  | HStreamT q _ | HStreamN q _ | HPass q _ => negb (is_nil q)
-  | HSingle q _ _ => negb (is_nil q)
+  | HStreamT q _ | HStreamN q _ => negb (is_nil q)
+  | HSingle q _ _ | HPass q _ _ => negb (is_nil q)
   | HKeyedT m _ | HKeyedN m _ => negb (all_empty m)
   | HKSingle m _ _ => negb (all_empty m)
   end.
 
 Definition is_ready (h : hook) : bool :=
   match h with
-  | HSingle q _ last => negb (is_nil q) || is_some last
+  | HSingle q _ last | HPass q _ last => negb (is_nil q) || is_some last
   | _ => true
   end.
 
@@ -304,10 +304,15 @@ Definition auto (h : hook) (force : bool) (ds : script) : res (hook * bool * scr
   | HSingle q _ last =>
     bind (decide_single force q last ds) (fun '(x, is_new, _, q', ds') =>
       Ok (HSingle q' (Some (x, is_new)) last, is_new, ds'))
-  | HPass q tr =>
+  | HPass q _ last =>
     match decide_pass q with
-    | (Some x, q') => Ok (HPass q' (Some x), true, ds)
-    | (None, q') => Ok (HPass q' tr, false, ds)
+    | (Some x, q') => Ok (HPass q' (Some (x, true)) last, true, ds)
+    | (None, q') =>
+      (* nothing new from the fold: re-release the last value (fix 3c81bfcb4b9) *)
+      match last with
+      | Some l => Ok (HPass q' (Some (l, false)) last, false, ds)
+      | None => Panic 3
+      end
     end
   | HKSingle m _ last =>
     bind (decide_ksingle N.eqb force m last ds) (fun '(rel, m', last', ds', nt) =>
@@ -328,7 +333,7 @@ Definition release (h : hook) : res (hook * list (N * N) * bool) :=
     | HKeyedT m (Some rel) => Ok (HKeyedT m None, rel, flag)
     | HKeyedN m (Some rel) => Ok (HKeyedN m None, rel, flag)
     | HSingle q (Some (x, _)) _ => Ok (HSingle q None (Some x), unkeyed [x], flag)
-    | HPass q (Some x) => Ok (HPass q None, unkeyed [x], flag)
+    | HPass q (Some (x, _)) _ => Ok (HPass q None (Some x), unkeyed [x], flag)
     | HKSingle m (Some rel) last => Ok (HKSingle m None last, map fst rel, flag)
     | _ => Panic 1
     end
